@@ -23,7 +23,7 @@ func init() {
 		"C11-lockrelease (every Lock/RLock in gldap is released on every path to the function's exit), C11-accounting (every connWg.Add is matched by a Done on every path, rules C12-done-last / C12-add-vs-wait), C11-waker-lifetime (a watcher goroutine that can be told to stop is told so only after (*conn).close has waited for the handlers), C11-waker (some code that runs asynchronously to those goroutines closes or deadlines every connection's socket once shutdownCtx is cancelled, and it is started for every accepted connection before its first read), C11-waker-first (no call that reaches ber.ReadPacket, a bufio.Writer write/flush, a net.Conn/tls.Conn read/write or a TLS handshake lies on a path of the connection goroutine before the watcher start), " +
 		"C11-stop-order (listener.Close and cancel precede connWg.Wait), C11-run-nil (shutdown exits of Run return nil), C11-nolock (connection goroutines never take Server.mu, which Stop holds across Wait). The time bound itself is not decided."
 	Descriptions["C17"] = "C17-guard (every store of true to Server.listenerReady is control-dependent on net.Listen's error being nil), C17-who (the flag is written only in Run (true) / Stop (false), under Server.mu), " +
-		"C17-errors (no error return of Run before or at the listen failure follows a store of true), C17-serves (no error return of Run between making Ready true and the first Accept), C17-accept-retry (a temporary Accept error never ends Run), C17-getter (Ready returns the field under the lock). Kernel-level accept behaviour is not decided."
+		"C17-errors (no error return of Run before or at the listen failure follows a store of true), C17-serves (no error return of Run between making Ready true and the first Accept), C17-accept-retry (a temporary Accept error never ends Run), C17-accept-unblocked (connection goroutines never take Server.mu, which the accept loop needs for every Accept: rule C11-nolock), C17-getter (Ready returns the field under the lock). Kernel-level accept behaviour is not decided."
 	Descriptions["C18"] = "C18-wrap (when opts.withTLSConfig != nil the listener Accept is called on is tls.NewListener(plain, thatConfig), installed before the accept loop and never replaced), " +
 		"C18-noplain (newConn receives the Accept result itself; every stream handed to initConn traces back to Accept's result, conn.netConn or tls.Server of those; no code reads the underlying socket; read errors end the connection), " +
 		"C18-directory (testdirectory.GetTLSConfig with WithMTLS sets ClientAuth = RequireAndVerifyClientCert and ClientCAs = the pool of the CA created in the same call, and never weakens verification; Start passes that config to Run unless WithNoTLS). crypto/tls itself is trusted."
@@ -238,6 +238,23 @@ func checkC17(c *Ctx) {
 		} else {
 			R.OK("C17-serves", "(*Server).Run: after a successful listen Run reaches Accept", c.pos(m.accept), "no error return lies between the successful listen and the first Accept")
 		}
+	}
+	// C17-accept-unblocked: the accept loop takes Server.mu in every iteration; a connection goroutine that takes it
+	// too (e.g. around a user callback) can stall accepting although Ready() is true (rule C11-nolock, imported)
+	if !c.Sub {
+		tmp := &Ctx{P: c.P, R: report.New("tmp"), Tier: c.Tier, Sub: true}
+		checkC11(tmp)
+		for _, o := range tmp.R.Obls {
+			if o.Rule == "C11-nolock" {
+				switch o.Status {
+				case report.Discharged:
+					R.OK("C17-accept-unblocked", o.Construct, o.Pos, o.Detail)
+				default:
+					R.Fail("C17-accept-unblocked", o.Construct, o.Pos, o.Detail+": the accept loop needs that lock for every Accept, so connections are no longer accepted while Ready() is true")
+				}
+			}
+		}
+		R.Floor("C17-accept-unblocked", 1)
 	}
 	// C17-getter
 	ls := an.LockSets(ready, nil)
@@ -1905,6 +1922,47 @@ func checkC11(c *Ctx) {
 						R.Check(okLate, "C11-waker-lifetime", key, c.pos(ci), "the stop channel is closed only after (*conn).close, which waits for the handlers, has returned",
 							"the shutdown watcher is told to stop before (*conn).close has waited for the connection's handlers (deferred calls run last-in first-out): if the read loop ends (Unbind, EOF) while a handler is blocked writing to a client that does not read, a later Stop() no longer arms the write deadline and never returns")
 					}
+					// the channel handed to a helper that closes it: fine only for the teardown's close helper, after
+					// (or deferred around) its conn.close call
+					for _, ci := range an.Calls(f) {
+						g := an.StaticCallee(ci.Common())
+						if g == nil || !an.InModule(g) || len(g.Blocks) == 0 {
+							continue
+						}
+						for ai, a := range ci.Common().Args {
+							if an.Strip(a) != ch || ai >= len(g.Params) {
+								continue
+							}
+							gp := g.Params[ai]
+							for _, gi := range an.Calls(g) {
+								gb, isB := gi.Common().Value.(*ssa.Builtin)
+								if !isB || gb.Name() != "close" || an.Strip(gi.Common().Args[0]) != ssa.Value(gp) {
+									continue
+								}
+								n++
+								okLate := false
+								if g == m.teardown {
+									// the teardown itself is a named function that is given the channel
+									switch x := gi.(type) {
+									case *ssa.Defer:
+										okLate = true // runs when the teardown returns, after its conn.close call
+									case *ssa.Call:
+										okLate = an.InstrDominates(m.closeCall, x)
+									}
+								} else if g == m.closeHelper && ci == m.closeCall {
+									inner := callTo(g, G, "(*conn).close")
+									switch x := gi.(type) {
+									case *ssa.Defer:
+										okLate = true // runs when the helper returns, i.e. after its conn.close call
+									case *ssa.Call:
+										okLate = len(inner) == 1 && an.InstrDominates(inner[0], x)
+									}
+								}
+								R.Check(okLate, "C11-waker-lifetime", key, c.pos(gi), "the stop channel is closed by the teardown's close helper, only after (*conn).close has returned",
+									"the shutdown watcher is told to stop (in "+fname(g)+") before (*conn).close has waited for the connection's handlers")
+							}
+						}
+					}
 					an.Instrs(f, func(in2 ssa.Instruction) {
 						if snd, ok := in2.(*ssa.Send); ok && an.Strip(snd.Chan) == ch {
 							n++
@@ -2432,6 +2490,25 @@ func (c *Ctx) checkStreamProvenance(rule string, m *serverModel) {
 			if x.Tuple == ssa.Value(m.accept) && x.Index == 0 {
 				return ""
 			}
+			// a result of a module helper: what the helper returns there
+			if hc, ok := x.Tuple.(*ssa.Call); ok {
+				if hf := an.StaticCallee(hc.Common()); hf != nil && an.InModule(hf) && len(hf.Blocks) > 0 {
+					n := 0
+					for _, ret := range an.Returns(hf) {
+						res := an.ReturnResults(ret)
+						if x.Index >= len(res) || an.IsNilConst(an.Strip(res[x.Index])) {
+							continue
+						}
+						n++
+						if why := origin(res[x.Index], seen); why != "" {
+							return why
+						}
+					}
+					if n > 0 {
+						return ""
+					}
+				}
+			}
 			return "comes from " + an.Path(x)
 		case *ssa.UnOp:
 			if x.Op == token.MUL {
@@ -2455,6 +2532,25 @@ func (c *Ctx) checkStreamProvenance(rule string, m *serverModel) {
 		case *ssa.Call:
 			if an.CalleeIs(x.Common(), "crypto/tls", "Server") {
 				return origin(x.Common().Args[0], seen)
+			}
+			if _, isAcc := fieldLoad(x, G, "conn", "netConn"); isAcc {
+				return "" // an accessor that returns conn.netConn
+			}
+			if hf := an.StaticCallee(x.Common()); hf != nil && an.InModule(hf) && len(hf.Blocks) > 0 && hf.Signature.Results().Len() == 1 {
+				n := 0
+				for _, ret := range an.Returns(hf) {
+					res := an.ReturnResults(ret)
+					if an.IsNilConst(an.Strip(res[0])) {
+						continue
+					}
+					n++
+					if why := origin(res[0], seen); why != "" {
+						return why
+					}
+				}
+				if n > 0 {
+					return ""
+				}
 			}
 			return "comes from " + an.Path(x)
 		case *ssa.FreeVar:
